@@ -131,7 +131,7 @@ class DleqBounded:
 
 
 # ---------------------------------------------------------------- silent payments
-def sp_run(inputs, outpoint_seeds, recipients, decoys):
+def sp_run(inputs, outpoint_seeds, recipients, decoys, as_given=False):
     """sender creates outputs for the recipients' addresses; each recipient scans"""
     from btclib import silent_payments as sp
     from btclib.tx.out_point import OutPoint
@@ -142,8 +142,10 @@ def sp_run(inputs, outpoint_seeds, recipients, decoys):
         P = C.mul(d, C.G)
         spk = (b"\x51\x20" + P[0].to_bytes(32, "big")) if taproot else (b"\x00\x14" + hashlib.new("ripemd160", hashlib.sha256(sec_compressed(P)).digest()).digest())
         prv_keys.append((d, spk))
-        # the public key of a taproot input is its x-only output key, i.e. the even-y lift
-        pub_keys.append((sec_compressed(P if (not taproot or P[1] % 2 == 0) else C.neg(P)), spk))
+        # the public key of a taproot input is its x-only output key, i.e. the even-y lift; `as_given`
+        # hands the scanner the point of the private key instead (odd y half of the time): the
+        # script it spends names the x-only key either way
+        pub_keys.append((sec_compressed(P if (not taproot or P[1] % 2 == 0 or as_given) else C.neg(P)), spk))
     addresses = []
     for b_scan, b_spend, label in recipients:
         if label is None:
@@ -172,7 +174,7 @@ def _gen_sp(rng):
             recs.append(recs[0])               # repeated address
         else:
             recs.append((rng.randrange(1, C.n), rng.randrange(1, C.n), rng.choice([None, None, 0, 1, 5])))
-    return dict(inputs=inputs, outpoint_seeds=seeds, recipients=recs, decoys=[rng.randrange(1, 250) for _ in range(rng.randrange(0, 3))])
+    return dict(inputs=inputs, outpoint_seeds=seeds, recipients=recs, decoys=[rng.randrange(1, 250) for _ in range(rng.randrange(0, 3))], as_given=rng.random() < 0.4)
 
 
 @contract("contracts.c_protocols.sp_run", gen=_gen_sp, props="C16 C04", both_arms=True, n_quick=40, n_thorough=800,
